@@ -403,7 +403,7 @@ struct QRCardSt { QRWorld *Q; SchindelhauerTMCG *tP, *tV; int mode; size_t type,
 // tags of one TMCG_ProveQuadraticResidue / VerifyQuadraticResidue run starting at pv[i], vp[j]; returns false on mismatch
 inline bool tag_qrproof(const Cell &c, const Z *m, unsigned kappa, const RunOut &h, size_t &i, size_t &j, std::vector<Tag> &pv, std::vector<Tag> &vp)
 {
-	Tag cnt(K_CNT, "kappa", m, m); vp.push_back(cnt); j++;
+	Tag cnt(K_KAPPA, "kappa", m, m); vp.push_back(cnt); j++;
 	size_t rs = i;          // R_1,S_1,...,R_k,S_k
 	i += 2 * kappa;
 	std::vector<bool> bits;
@@ -476,7 +476,7 @@ inline CellP make_qrcard(QRWorld &Q, int mode, size_t type, unsigned kappa, size
 				for (size_t b = 0; b < w; b++)
 				{
 					const Z *m = &(*mods)[k];
-					vp.push_back(Tag(K_CNT, "kappa", m, m)); j++;
+					vp.push_back(Tag(K_KAPPA, "kappa", m, m)); j++;
 					for (unsigned r = 0; r < K; r++) { pv.push_back(Tag(K_EXACT, "mask.T", m, m)); i++; }
 					for (unsigned r = 0; r < K; r++)
 					{
@@ -602,7 +602,7 @@ inline CellP make_stack_cc_vtmf(World &W, size_t n, const std::vector<size_t> &p
 	c->prover = [st](std::iostream &s) { st->tP->TMCG_ProveStackEquality(st->s, st->s2, st->ss, st->cyclic, st->W->A, s, s); return true; };
 	c->verifier = [st](std::iostream &s) { return st->tV->TMCG_VerifyStackEquality(st->sV, st->s2V, st->cyclic, st->W->B, s, s); };
 	c->tags = [cp, st](const RunOut &h, std::vector<Tag> &pv, std::vector<Tag> &vp) {
-		vp.push_back(cp->T(K_CNT, "kappa"));
+		vp.push_back(cp->T(K_KAPPA, "kappa"));
 		for (unsigned r = 0; r < st->kappa; r++)
 		{
 			pv.push_back(cp->T(K_EXACT, "cc.commit")), vp.push_back(cp->T(K_BIT, "cc.challenge"));
@@ -690,7 +690,7 @@ inline CellP make_stack_cc_qr(QRWorld &Q, size_t n, const std::vector<size_t> &p
 	Cell *cp = c.get();
 	c->tags = [cp, st, mods](const RunOut &h, std::vector<Tag> &pv, std::vector<Tag> &vp) {
 		const Z *m0 = &(*mods)[0];
-		vp.push_back(Tag(K_CNT, "kappa", m0, m0));
+		vp.push_back(Tag(K_KAPPA, "kappa", m0, m0));
 		for (unsigned r = 0; r < st->kappa; r++)
 		{
 			pv.push_back(Tag(K_EXACT, "cc.commit", m0, m0)), vp.push_back(Tag(K_BIT, "cc.challenge", m0, m0));
